@@ -20,7 +20,7 @@ every kept change is reported as a VIOLATION with a concrete replay, while the u
 Rounds (each by fresh agents that saw only the property text, the list of ideas already used and their own
 worktree): rounds 1-2: 57 changes, 23 missed at first; round 3: 38, 19 missed at first; round 4: 37, 15; round 5:
 36, 12; round 6: 38, 11, one of them NOT caught by any check (`C05-r6s2`, a `BaseDiscretizer` built directly with
-`str_nan=None`: documented exclusion) (in rounds 5-6 about 5 per round are only visible to a sibling property's check, e.g. a change that needs `update_discretizer`
+`str_nan=None`: documented exclusion); round 7 (seven properties only, two agents found no new idea that survives the test suite): 9, 2 (in rounds 5-6 about 5 per round are only visible to a sibling property's check, e.g. a change that needs `update_discretizer`
 is C17's business even when it was written against C04).  What the misses had in common, and what was added each
 time: rarely used keyword arguments (custom `str_nan`/`str_default`, `verbose`, `colsample`, `n_jobs`,
 `min_freq_mod=0`), row indices other than `0..n-1`, dev samples that differ from train in one modality, call
